@@ -115,3 +115,46 @@ func VerifH09d() {
 	}
 	nd.Reach("H09d.end")
 }
+
+// VerifH09e: a read that is under way when the collector runs. A reader obtained from GetReader
+// (autocommit, or a transaction that has ended since) is still unread when the key is overwritten
+// or deleted and the collector removes the superseded version with its content; reading it
+// afterwards yields exactly the bytes the read was entitled to when it began (the content file is
+// unlinked, never emptied under an open descriptor), or fails - it never returns other or fewer
+// bytes with a clean end.
+func VerifH09e() {
+	nd.SetPreemptionBound(0)
+	concreteCounter = true
+	w := newWorld(stdConfig(), []string{"a"})
+	w.vlen = []int{1, 2049}[nd.Choice("len", 2)]
+	old := w.freshVal()
+	nd.Assert(w.doSet(0, "a", old, 0) == nil, "H09e.pre")
+	var st fs_db.Store = w.d
+	viaTx := nd.Choice("reader-from-a-transaction", 2) == 1
+	t := 0
+	if viaTx {
+		t = w.begin(snapshotLevels[nd.Choice("level", 2)])
+		st = w.txs[t].h
+	}
+	r, err := st.GetReader(ctx, "a")
+	nd.Assert(err == nil, "H09e.get-reader")
+	if err != nil {
+		return
+	}
+	if viaTx {
+		w.rollback(t, "H09e")
+	}
+	if nd.Choice("superseded-by", 2) == 0 {
+		nd.Assert(w.doSet(0, "a", w.freshVal(), 0) == nil, "H09e.overwrite")
+	} else {
+		nd.Assert(w.doDelete(0, "a") == nil, "H09e.delete")
+	}
+	w.gc("H09e")
+	verifenv.RunJobs()
+	got, rerr := readAll(r)
+	if rerr == nil {
+		nd.Assert(nd.EqBytes(got, old), "H09e.reader-held-across-a-collection-returns-other-bytes")
+	}
+	w.checkReads("H09e.after")
+	nd.Reach("H09e.end")
+}
